@@ -36,3 +36,5 @@ def run(rep: Report, repo: Repo, tier: str) -> None:
     from . import writer_rules as _wr
     with rep.isolated():
         _wr.rule_file_is_rendered_text(rep, repo, "C18-R10")
+    with rep.isolated():
+        fsrules.rule_page_order_by_name(rep, repo, "C18-R11")
